@@ -19,7 +19,7 @@ for sid in ids:
     if ap.returncode == 0:
         for p in props:
             t0 = time.time()
-            r = sh(f"cd /verif && VERIF_NPROC=8 VERIF_REPO={wt} ./vcheck {p} quick")
+            r = sh(f"cd /verif && VERIF_NPROC=5 VERIF_REPO={wt} ./vcheck {p} quick")
             lines = [l for l in r.stdout.splitlines() if l.startswith("VIOLATION")]
             res[p] = {"exit": r.returncode, "violation_lines": len(lines), "first": (lines[0][:200] if lines else ""), "summary": r.stdout.strip().splitlines()[-1][:200] if r.stdout.strip() else "", "wall_s": round(time.time() - t0, 1)}
     sh(f"git -C /repo worktree remove --force {wt}")
